@@ -64,6 +64,14 @@ def import_bromelia():
         import bromelia.statemachine        # noqa
         import bromelia.bromelia            # noqa
         import bromelia._internal_utils     # noqa
+        import importlib
+        import pkgutil
+        import bromelia.lib
+        # every module must be imported before a simulation starts: an import
+        # inside a pre-emptible thread would park it holding the import lock
+        for m in pkgutil.iter_modules(bromelia.lib.__path__):
+            importlib.import_module("bromelia.lib." + m.name)
+            importlib.import_module("bromelia.lib." + m.name + ".messages")
     return sys.modules["bromelia"]
 
 
@@ -100,6 +108,12 @@ class SimWorld(object):
         if c:
             role = "%s#%d" % (role, c)
         return role
+
+    def _sim_lock_like(self, real_lock):
+        import _thread
+        if isinstance(real_lock, type(_thread.allocate_lock())):
+            return self.threading.Lock()
+        return self.threading.RLock()
 
     def install(self):
         import bromelia.transport as transport
@@ -152,6 +166,37 @@ class SimWorld(object):
             worker._sim_thread = t
             t.start()
         bro.Worker.start = worker_start
+
+        # generic pass: any bromelia module that reaches threading / queue /
+        # time / datetime through a module attribute gets the simulated one,
+        # and lock objects created at import time (module globals, class
+        # attributes) are replaced by simulated locks -- a real lock held by a
+        # parked thread would freeze the whole simulation.
+        import _thread
+        import threading as real_threading
+        import queue as real_queue
+        import time as real_time
+        import datetime as real_datetime
+        real_lock_types = (type(_thread.allocate_lock()), type(real_threading.RLock()))
+        for name, m in list(sys.modules.items()):
+            if m is None or not (name == "bromelia" or name.startswith("bromelia.")):
+                continue
+            d = getattr(m, "__dict__", {})
+            if d.get("threading") is real_threading:
+                m.threading = self.threading
+            if d.get("queue") is real_queue:
+                m.queue = self.queue
+            if d.get("time") is real_time:
+                m.time = self.time
+            if d.get("datetime") is real_datetime:
+                m.datetime = self.datetime
+            for k, v in list(d.items()):
+                if isinstance(v, real_lock_types):
+                    setattr(m, k, self._sim_lock_like(v))
+                elif isinstance(v, type) and getattr(v, "__module__", "") == name:
+                    for ck, cv in list(vars(v).items()):
+                        if isinstance(cv, real_lock_types):
+                            setattr(v, ck, self._sim_lock_like(cv))
 
         # knobs
         mods = {"statemachine": statemachine, "setup": setup, "bromelia": bro,
